@@ -2,6 +2,8 @@
 package verif_c10_test
 
 import (
+	"strings"
+	"os"
 	"context"
 	"fmt"
 	"runtime/debug"
@@ -293,6 +295,31 @@ func execute(sc Script, rep *kit.Report) error {
 		defer db.Close()
 		db.SetIndex(idxDB.Index())
 	}
+	engineCover, engineCoverOK := storedDomains(ctx, db)
+	// the layout of the listed index-delete finding (a data domain that reaches past the end
+	// of the index domain chain it starts in), decided from the engine's own domain ranges
+	lostCoverage = false
+	if !spec.IsIndex && engineCoverOK {
+		if idxCover, iok := storedDomains(ctx, idxDB); iok {
+			var chain [][2]int64
+			for _, iv := range idxCover {
+				if n := len(chain); n > 0 && iv[0] <= chain[n-1][1] {
+					if iv[1] > chain[n-1][1] {
+						chain[n-1][1] = iv[1]
+					}
+					continue
+				}
+				chain = append(chain, iv)
+			}
+			for _, d := range engineCover {
+				for _, c := range chain {
+					if d[0] >= c[0] && d[0] < c[1] && d[1] > c[1] {
+						lostCoverage = true
+					}
+				}
+			}
+		}
+	}
 	it, oerr := db.OpenIterator(unary.IteratorConfig{Bounds: tr(sc.A, sc.B), AutoChunkSize: sc.Chunk})
 	if oerr != nil {
 		return kit.Fail("open-iterator", "unary OpenIterator: %v", oerr)
@@ -361,6 +388,9 @@ func execute(sc Script, rep *kit.Report) error {
 		}
 		view := it.View()
 		got, wellFormed := samplesOf(spec.DataType, it.Value().SeriesSlice())
+		if os.Getenv("C10_DEBUG") != "" {
+			fmt.Printf("C10DEBUG %s ok=%v view=[%d,%d) got=%d err=%v errored=%v\n", where, ok, int64(view.Start), int64(view.End), len(got), it.Error(), errored)
+		}
 		if !wellFormed {
 			return kit.Fail(K+"malformed-series", "%s: returned series with malformed layout", where)
 		}
@@ -368,6 +398,21 @@ func execute(sc Script, rep *kit.Report) error {
 		// differential: the cesium-level iterator must have returned the same samples
 		if !errored && (isStep || ok) && it.Error() == nil && !eq(top[i].vals, got) {
 			return kit.Fail(K+"cesium-vs-unary-iterator", "%s: cesium.Iterator returned %d samples, unary.Iterator %d", where, len(top[i].vals), len(got))
+		}
+		// A successful SeekGE / SeekLE to a timestamp that lies in no stored domain positions
+		// the (empty) view at the start / end of the seeked domain or of the bounds, whichever
+		// is later / earlier (iterator.go): it never lies outside the bounds. (A target inside
+		// a domain becomes the view as it is, also outside the bounds: not asserted.) Whether
+		// the target lies in a stored domain is taken from the engine itself (one full-range
+		// pass before the commands: a series per stored domain, with that domain's range).
+		if (c.Kind == "ge" || c.Kind == "le") && ok && it.Error() == nil && engineCoverOK && !coveredBy(engineCover, c.TS) {
+			if c.Kind == "ge" && int64(view.Start) < bA {
+				return kit.Fail(K+"seek-view-before-bounds", "%s: SeekGE(%d) to a timestamp in no stored domain left the view at [%d,%d), before the bounds start %d", where, c.TS, int64(view.Start), int64(view.End), bA)
+			}
+			if c.Kind == "le" && bB < inf && int64(view.End) > bB {
+				return kit.Fail(K+"seek-view-after-bounds", "%s: SeekLE(%d) to a timestamp in no stored domain left the view at [%d,%d), after the bounds end %d", where, c.TS, int64(view.Start), int64(view.End), bB)
+			}
+			rep.Class("seek-to-uncovered-timestamp")
 		}
 		if !isStep && !ok {
 			// a seek that reports false leaves the iterator invalid until the next seek
@@ -395,7 +440,7 @@ func execute(sc Script, rep *kit.Report) error {
 				return kit.Fail(K+"seek-error", "%s: seek left error %v", where, ierr)
 			}
 			if len(rest) > 0 {
-				return kit.Fail(K+"step-error-with-data-remaining", "%s: step failed with %v although %d stored samples remain in the direction of travel (first %d); previous view %v", where, ierr, len(rest), rest[0], prevView)
+				return kit.Fail(discontinuity(ierr, K+"step-error-with-data-remaining"), "%s: step failed with %v although %d stored samples remain in the direction of travel (first %d); previous view %v", where, ierr, len(rest), rest[0], prevView)
 			}
 			prevKind = "error"
 			continue
@@ -586,9 +631,15 @@ func traverse(ctx context.Context, db *unary.DB, model *tsm.Chan, spec tsm.Chann
 	}
 	// the number of fixed-span steps is bounded by (last-first)/span
 	lo, hi := wantTS[0], wantTS[len(wantTS)-1]
-	modes := []string{"next", "prev"}
+	// "ge-next": the traversal is started by SeekGE(t) with t before the bounds start instead
+	// of SeekFirst: the documented seek positions the view at the start of the seeked domain
+	// or of the bounds, whichever is later, so the same traversal law applies. (The mirror
+	// image with SeekLE is not asserted: a target beyond the bounds end makes SeekLE report
+	// false, and a target inside the last domain leaves a zero-width view at the target, so
+	// a backward walk legitimately starts below it.)
+	modes := []string{"next", "prev", "ge-next"}
 	if sc.Auto {
-		modes = []string{"next", "prev", "anext", "aprev"}
+		modes = []string{"next", "prev", "ge-next", "anext", "aprev"}
 	}
 	for _, mode := range modes {
 		it, err := db.OpenIterator(unary.IteratorConfig{Bounds: tr(a, b), AutoChunkSize: sc.Chunk})
@@ -597,6 +648,8 @@ func traverse(ctx context.Context, db *unary.DB, model *tsm.Chan, spec tsm.Chann
 		}
 		var got [][]byte
 		steps := 0
+		skipMode := false
+		viewErr := ""
 		// a traversal starts at the bound / end of the last domain, not at the last sample
 		top := b
 		if top >= inf {
@@ -615,19 +668,36 @@ func traverse(ctx context.Context, db *unary.DB, model *tsm.Chan, spec tsm.Chann
 		maxSteps := int((top-a)/span) + len(wantTS) + 10
 		pan := catch(func() {
 			switch mode {
-			case "next", "anext":
-				if it.SeekFirst(ctx) {
+			case "next", "anext", "ge-next":
+				seeked := false
+				if mode == "ge-next" {
+					if seeked = it.SeekGE(ctx, telem.TimeStamp(max(0, a-int64(len(wantTS))-2))); !seeked {
+						// a target outside the bounds can make the seek report false: the law
+						// is stated for a seek that succeeded
+						rep.Class("ge-next-seek-false")
+						skipMode = true
+					}
+				} else {
+					seeked = it.SeekFirst(ctx)
+				}
+				if seeked {
 					for steps = 0; steps < maxSteps; steps++ {
 						sp := spanOf(span)
 						if mode == "anext" {
 							sp = unary.AutoSpan
 						}
-						it.Next(ctx, sp)
+						ok := it.Next(ctx, sp)
 						if it.Error() != nil {
 							break
 						}
 						v, _ := samplesOf(spec.DataType, it.Value().SeriesSlice())
 						got = append(got, v...)
+						if vw := it.View(); int64(vw.Start) < a || (b < inf && int64(vw.End) > b) {
+							viewErr = fmt.Sprintf("step %d reports view [%d,%d)", steps, int64(vw.Start), int64(vw.End))
+						}
+						if !ok && len(v) > 0 {
+							viewErr = fmt.Sprintf("step %d returned false together with %d samples", steps, len(v))
+						}
 						if int64(it.View().End) >= boundEnd(b) || int64(it.View().End) > hi {
 							break
 						}
@@ -663,13 +733,62 @@ func traverse(ctx context.Context, db *unary.DB, model *tsm.Chan, spec tsm.Chann
 		}
 		ierr := it.Error()
 		_ = it.Close()
+		if skipMode {
+			continue
+		}
+		if viewErr != "" {
+			return kit.Fail("traversal-"+mode+"-view", "full traversal (%s, span %d, chunk %d) of ch%d over bounds [%d,%d): %s", mode, span, sc.Chunk, spec.Key, a, b, viewErr)
+		}
 		if !eq(got, want) {
-			return kit.Fail("traversal-"+mode, "full traversal (%s, span %d, chunk %d) of ch%d %s over [%d,%d) returned %d samples %s, stored %d at %v (iterator error: %v)",
+			return kit.Fail(discontinuity(ierr, "traversal-"+mode), "full traversal (%s, span %d, chunk %d) of ch%d %s over [%d,%d) returned %d samples %s, stored %d at %v (iterator error: %v)",
 				mode, span, sc.Chunk, spec.Key, spec.DataType, a, b, len(got), hexs(got), len(want), firstTS(wantTS), ierr)
 		}
 		rep.Class("traversal-" + mode)
 	}
 	return nil
+}
+
+// lostCoverage is set per case by execute (single goroutine per process).
+var lostCoverage bool
+
+// discontinuity maps an iterator error to the signature of the listed index-delete finding
+// when the stored layout is the one that finding describes.
+func discontinuity(err error, fallback string) string {
+	if err != nil && lostCoverage && strings.Contains(err.Error(), "is not continuous in the index") {
+		return "read-error:data-domain-end-outside-index-coverage"
+	}
+	return fallback
+}
+
+// storedDomains returns the time ranges of the channel's stored domains as the engine reports
+// them: a full-range pass returns one series per stored domain.
+func storedDomains(ctx context.Context, db *unary.DB) (out [][2]int64, ok bool) {
+	it, err := db.OpenIterator(unary.IteratorConfig{Bounds: telem.TimeRangeMax})
+	if err != nil {
+		return nil, false
+	}
+	defer func() { _ = it.Close() }()
+	if catch(func() {
+		if !it.SeekFirst(ctx) {
+			return
+		}
+		it.Next(ctx, telem.TimeSpanMax)
+		for _, sr := range it.Value().SeriesSlice() {
+			out = append(out, [2]int64{int64(sr.TimeRange.Start), int64(sr.TimeRange.End)})
+		}
+	}) != "" || it.Error() != nil {
+		return nil, false
+	}
+	return out, true
+}
+
+func coveredBy(cover [][2]int64, t int64) bool {
+	for _, iv := range cover {
+		if t >= iv[0] && t < iv[1] {
+			return true
+		}
+	}
+	return false
 }
 
 func firstTS(ts []int64) []int64 {
